@@ -1,4 +1,5 @@
 import Uft.Props.C03
+import Uft.Gen.TaskStart
 /-
 C04 — A crashing or killed tracee still leaves a replayable prefix trace.
 
@@ -234,5 +235,53 @@ theorem nestOk_prefix : ∀ (a b : List Item) (d : Nat), nestOk d (a ++ b) = tru
 theorem c04_prefix_nests (h : Reachable cfg nw s) (t : Tid)
     (hfull : nestOk 0 (survivors (s.prod t).log) = true) : nestOk 0 (clean (s.file t)) = true :=
   c04_prefix_is_replayable h t (fun l => nestOk 0 l = true) (fun a b => nestOk_prefix a b 0) hfull
+
+/-! ### exec: a tid that lives on in a new image -/
+
+/-- the test of the TASK_START case as it stands in cmds/record.c (regenerated on every run) -/
+abbrev codeKnown := Uft.Gen.TaskStart.isKnown
+
+/-- the handler around that test has the shape the model `Crash.handle` gives it: a match flushes the
+    announced tid's old buffer and leaves the loop, the task is added only when nothing matched, and
+    flush_old_shmem takes the first entry of that tid only (facts regenerated from the source) -/
+theorem c04_taskstart_shape :
+    Uft.Gen.TaskStart.flushesAnnouncedTid = true ∧ Uft.Gen.TaskStart.breaksAfterFlush = true ∧
+    Uft.Gen.TaskStart.addsWhenNoEntry = true ∧ Uft.Gen.TaskStart.flushOldFirstEntryOnly = true := by
+  decide
+
+/-- the code's test recognises a task by its tid alone — whatever pid its entry carries (entries made by
+    FORK_START/FORK_END carry the PARENT's pid) -/
+theorem c04_taskstart_matches_by_tid (pp pt mp mt : Int) : codeKnown pp pt mp mt = (pt == mt) := by
+  simp [codeKnown, Uft.Gen.TaskStart.isKnown]
+
+/-- **Order across exec.**  For every sequence of control messages that respects the producers' protocol
+    (`valid`: a REC_END ends the one buffer the recorder holds for that tid; a new image starts its first buffer
+    while at most the dead image's last one is still announced; a TASK_START comes from a task not seen before, or
+    from a new image of a known task), the recorder hands the buffers of every tid to the writers in the order in
+    which that tid started them: first all buffers of the image before the exec — including the one it was filling
+    when it vanished — then those of the image after it.  With the writer pool's per-tid FIFO
+    (`Writers.enqueue_queue`, `popHead_queue`) and C03's per-image conservation: `<tid>.dat` = records made
+    before the exec ++ records made after it. -/
+theorem c04_exec_flush_order (msgs : List CMsg) (hv : valid codeKnown {} msgs = true) (t : Int) :
+    ofTid t (runRec codeKnown msgs).enq = startsOf t msgs := by
+  have := fold_order c04_taskstart_matches_by_tid t msgs {} hv
+  simpa [runRec, ofTid] using this
+
+/-- fork (parent 100, child 101), the child fills buffer 0, switches to 1, and execs while filling 1; the new
+    image starts buffer 10, announces itself, fills 10, 11 -/
+def forkExecMsgs : List CMsg :=
+  [.recStart 100 50, .taskStart 100 100, .forkStart 100, .recStart 101 0, .forkEnd 100 101,
+   .recEnd 101 0, .recStart 101 1,
+   .recStart 101 10, .taskStart 101 101, .recEnd 101 10, .recStart 101 11, .recEnd 101 11, .taskEnd 101]
+
+/-- non-vacuity: that sequence is valid for the code's test, and the order is the order of starting -/
+example : valid codeKnown {} forkExecMsgs = true := by decide
+example : ofTid 101 (runRec codeKnown forkExecMsgs).enq = [(101, 0), (101, 1), (101, 10), (101, 11)] := by decide
+
+/-- a test that also compares the pid misses the forked child (its entry carries pid 100): the buffer the old
+    image was filling is queued only by flush_shmem_list at the very end, after the new image's buffers -/
+theorem c04_prefix_exec_pid_match_witness :
+    ofTid 101 (runRec (fun pp pt mp mt => pp == mp && pt == mt) forkExecMsgs).enq =
+      [(101, 0), (101, 10), (101, 11), (101, 1)] := by decide
 
 end Uft.C04
